@@ -33,6 +33,15 @@
 (*           every reference of deps[r] is resolved                (C09)   *)
 (*   never   refs whose provider answers Postponed for ever        (C09)   *)
 (*   unknown refs whose provider answers None (unknown object)             *)
+(*   builtin those of `unknown` whose name is in the metamodel's builtins: *)
+(*           after the None answer they are linked to the builtin object   *)
+(*   mode    how the provider learns that deps[r] are resolved:            *)
+(*           "book" it keeps its own book of the references it resolved;   *)
+(*           "api"  it asks textX (scoping.tools.resolve_model_path /      *)
+(*           needs_to_be_resolved on the attribute holding the reference): *)
+(*           an attribute is reported as waiting while one of its          *)
+(*           references is in the parser's pending list, which is updated  *)
+(*           when a resolution step of that model ENDS                     *)
 (* The environment is the scope provider; everything else is the loader.   *)
 (*                                                                         *)
 (* `Order` = "textual": models in repository order, references in textual  *)
@@ -118,13 +127,20 @@ WellFormed(s) ==
   /\ \A r \in 1..NOf(s) : s.deps[r] \subseteq 1..NOf(s)
   /\ \A r \in 1..NOf(s) : s.tgt[r] \in 1..r /\ s.tgt[s.tgt[r]] = s.tgt[r]
   /\ s.never \subseteq 1..NOf(s) /\ s.unknown \subseteq 1..NOf(s)
+  /\ s.builtin \subseteq s.unknown /\ s.mode \in {"book", "api"}
 
 ----------------------------------------------------------------------------
 \* The environment: what the scope provider answers for r in the current state
+\* the attribute holding d still waits, as textX reports it (pending[m] is parser._crossrefs of m)
+AttrWaiting(d) == \E x \in Range(pending[ModelOf(d)]) : StmtOf(x) = StmtOf(d)
+DepsOpen(r) == IF sc.mode = "api" THEN \E d \in sc.deps[r] : AttrWaiting(d)
+               \* its own book: the references it answered itself (not those linked to a builtin after None)
+               ELSE ~(sc.deps[r] \subseteq resolved \ sc.builtin)
+
 Answer(r) ==
   IF attempts[r] < sc.sched[r] THEN "postponed"
   ELSE IF r \in sc.unknown THEN "none"
-  ELSE IF r \in sc.never \/ ~(sc.deps[r] \subseteq resolved) THEN "postponed"
+  ELSE IF r \in sc.never \/ DepsOpen(r) THEN "postponed"
   ELSE "resolved"
 
 \* list attribute after one more reference resolved
@@ -175,7 +191,8 @@ TryRef(m, r) ==
          k == StmtOf(r)
      IN /\ attempts' = [attempts EXCEPT ![r] = @ + 1]
         /\ op' = [m |-> m, r |-> r, attempt |-> attempts[r] + 1, ans |-> a]
-        /\ CASE a = "resolved" ->
+        \* a None answer for a name found in the builtins links the reference to the builtin object
+        /\ CASE a = "resolved" \/ (a = "none" /\ r \in sc.builtin) ->
                   /\ resolved' = resolved \cup {r}
                   /\ rcnt' = rcnt + 1
                   /\ attrs' = [attrs EXCEPT ![m][k] =
@@ -185,7 +202,7 @@ TryRef(m, r) ==
                   /\ delayed' = [delayed EXCEPT ![m] = Append(@, r)]
                   /\ newp' = Append(newp, r)
                   /\ UNCHANGED <<resolved, rcnt, attrs, pc, outcome>>
-             [] a = "none" ->           \* no builtins: 'Unknown object' error, load fails
+             [] a = "none" /\ r \notin sc.builtin ->     \* 'Unknown object' error, load fails
                   /\ outcome' = [kind |-> "unknown", names |-> <<r>>]
                   /\ pc' = "idle"
                   /\ UNCHANGED <<resolved, rcnt, attrs, newp, delayed>>
@@ -284,8 +301,13 @@ ErrorNamesUnresolved ==
   /\ (Idle /\ outcome.kind = "ok") => resolved = AllRefs
 
 \* C09: for a pure dependency scenario, the least fixpoint of `deps` decides
+\* in "api" mode a reference waits for every reference of the attributes holding its deps
+MatesOf(s, d) == LET m == CHOOSE i \in 1..NMOf(s) : d \in Range(FileRefsOf(s, i))
+                     k == CHOOSE j \in 1..Len(s.files[m]) : d \in Range(s.files[m][j].refs)
+                 IN Range(s.files[m][k].refs)
+EffDeps(s, r) == IF s.mode = "api" THEN UNION {MatesOf(s, d) : d \in s.deps[r]} ELSE s.deps[r]
 RECURSIVE LfpFrom(_, _)
-LfpFrom(s, S) == LET T == S \cup {r \in 1..NOf(s) : r \notin s.never /\ s.deps[r] \subseteq S}
+LfpFrom(s, S) == LET T == S \cup {r \in 1..NOf(s) : r \notin s.never /\ EffDeps(s, r) \subseteq S}
                  IN IF T = S THEN S ELSE LfpFrom(s, T)
 Resolvable(s) == LfpFrom(s, {})
 PureDeps(s)   == s.unknown = {} /\ \A r \in 1..NOf(s) : s.sched[r] = 0
